@@ -301,7 +301,8 @@ EdgeOnChange(s, e, i) ==
   IF ~Ok(s) THEN s ELSE
   LET ed == s.edges[e][i] IN
   IF ed.cb = "none" THEN s ELSE
-  IF Value(s, ed.child) = NoVal THEN Fail(s, "panic:unwrap_edge_value")
+  IF Value(s, ed.child) = NoVal
+  THEN (IF "edge_cb_parent" \in Fix THEN s ELSE Fail(s, "panic:unwrap_edge_value"))
   ELSE LET v == Value(s, ed.child)
            st0 == SelectSeq(s.xstore[e], LAMBDA r : r.edge # ed.id)
        IN [s EXCEPT !.cbLog = Append(@, [e |-> e, edge |-> ed.id, child |-> ed.child, v |-> v]),
@@ -833,7 +834,8 @@ FireAll(s, n, snapshot, i) ==
   \* on_change of the cloned edge: uses the edge object, wherever it now sits
   LET ed == snapshot[i]
       s1 == IF ed.cb = "none" THEN s
-            ELSE IF Value(s, ed.child) = NoVal THEN Fail(s, "panic:unwrap_edge_value")
+            ELSE IF Value(s, ed.child) = NoVal
+            THEN (IF "edge_cb_parent" \in Fix THEN s ELSE Fail(s, "panic:unwrap_edge_value"))
             ELSE LET v == Value(s, ed.child)
                      st0 == SelectSeq(s.xstore[n], LAMBDA r : r.edge # ed.id)
                  IN [s EXCEPT !.cbLog = Append(@, [e |-> n, edge |-> ed.id, child |-> ed.child, v |-> v]),
